@@ -610,6 +610,22 @@ def tensor_iter(E, t):
     return [tm_index.tensor_getitem(E, t, i) for i in range(n)]
 
 
+def uninterpreted_function_result(E, name, args, kwargs):
+    """An external function the model gives no semantics to: the result is recorded as the application of an
+    uninterpreted function to its arguments, so that two calls on equal arguments can be recognised as equal."""
+    rec = ("ufun", name, tuple(args), tuple(sorted(kwargs.items(), key=lambda kv: kv[0])))
+    E.ps.setdefault("ufun_calls", []).append(rec)
+    base = [a for a in list(args) + list(kwargs.values()) if isinstance(a, STensor)]
+    if not base:
+        raise Unsupported(f"{name} without tensor argument")
+    t0 = base[0]
+    n = E.fresh_name(f"{name}_out").replace("#", "_")
+    out = new_input(E, n, t0.dtype, list(t0.shape), device=t0.device)
+    out.fresh = True
+    out.attrs["ufun"] = rec
+    return out
+
+
 # ------------------------------------------------------------------------------------------------
 # attribute access on tensors
 
